@@ -299,24 +299,23 @@ theorem bounded_progress {n : Nat} {s s' : State} {a : Action} (hr : Reachable n
     simp only [progressMeasure, pendingCount] at h1 ⊢
     omega
 
-/-- Weak fairness of the scheduler: a thread that from some point on always has an enabled action which is
-neither a busy-wait iteration nor a new API call eventually takes such an action. -/
-def WeaklyFair {n : Nat} (r : InfRun n) : Prop :=
-  ∀ th i, (∀ j, i ≤ j → ∃ a : Action, a.thread = th ∧ a.isSpin = false ∧ a.isCall = false ∧ (step (r.st j) a).isSome = true) →
-    ∃ j, i ≤ j ∧ (r.act j).thread = th ∧ (r.act j).isSpin = false
-
 /-- FULL liveness claim ("a wait call always returns"): on every infinite run of the model, started anywhere
-inside `wait(q)`, with a weakly fair scheduler and finitely many spurious wake-ups, the call returns.
-NOT proved as stated; see `wait_returns_partial`. -/
+inside `wait(q)`, under a weakly fair scheduler (`WeaklyFair`: a thread that keeps having an enabled action
+other than a busy-wait iteration or a new API call eventually takes a non-busy-wait action) and with finitely
+many spurious wake-ups, the call returns to the caller. -/
 def wait_returns_statement : Prop :=
   ∀ (n : Nat) (r : InfRun n) (q : Nat), InWait q (r.st 0) → WeaklyFair r → FinitelyManyWakes r →
     ∃ i, (r.st i).mode = .api
 
-/-- Proved part: the call returns on every infinite run that keeps taking actions other than busy-wait
-iterations / spurious wake-ups (`KeepsProgressing`) and has finitely many spurious wake-ups.
-Missing for the full statement: the lift `WeaklyFair r → KeepsProgressing r` (the progress action that
-`no_deadlock` provides stays enabled until its thread moves), and — outside any model — that the OS
-scheduler is weakly fair and `std::condition_variable` wakes spuriously only finitely often. -/
+/-- The full statement holds for the model: `no_deadlock` gives an enabled progress action, it stays enabled
+until its thread moves (`progress_persists`), so a weakly fair schedule keeps making progress, and
+`bounded_progress` bounds how much progress is possible before the call returns.
+What remains OUTSIDE the model (and is therefore only assumed): that the OS scheduler is weakly fair, that
+`std::condition_variable` wakes spuriously only finitely often, and that dispatch.cpp follows the model. -/
+theorem wait_returns : wait_returns_statement :=
+  fun _ r _ h0 hf hw => wait_returns_weakly_fair r h0 hf hw
+
+/-- the same under the weaker-to-state assumption that the schedule keeps taking progress actions -/
 theorem wait_returns_partial {n : Nat} (r : InfRun n) (q : Nat) (h0 : InWait q (r.st 0))
     (hA1 : KeepsProgressing r) (hA2 : FinitelyManyWakes r) : ∃ i, (r.st i).mode = .api :=
   wait_returns_of_fair r h0 hA1 hA2
@@ -352,5 +351,14 @@ example : InWait 0 (demoRun.st 0) ∧ KeepsProgressing demoRun ∧ FinitelyManyW
     | 0 => intro h; cases h
     | 1 => intro h; cases h
     | (k + 2) => intro h; cases h
+
+/-- ... and it is weakly fair (from step 2 on no thread has a pending non-call action) -/
+example : WeaklyFair demoRun := by
+  intro th i hen
+  exfalso
+  obtain ⟨a, _, h1, h2, h3⟩ := hen (i + 3) (by omega)
+  have : step (demoRun.st (i + 3)) a = none := no_progress_without_workers _ rfl rfl a h1 h2
+  rw [this] at h3
+  cases h3
 
 end Mustache.Props.C08
